@@ -23,7 +23,7 @@ RULE = ('all operation histories of length <= H over {G1 fresh-generator hierarc
 ASSUMPTIONS = ['normalisation: hex id suffixes renumbered by first appearance; contiguous runs of wire declarations sorted; nothing else',
                'reusing a caller-owned createdStructures list across calls is outside the alphabet (documented as "already emitted, skip")',
                'canonical answers are taken from a pristine build at the start of each shard']
-BOUNDS = {'quick': 'H = 4, three circuits (combinational hierarchy with shared named modules, ModuloCounter, transpiled FSM + registers)',
+BOUNDS = {'quick': 'H = 4, four circuits (combinational hierarchy with shared named modules, ModuloCounter, transpiled FSM + registers, a sub-block in its own named clock domain)',
           'thorough': 'H = 6, same circuits'}
 
 OPS = ['G1', 'G1r', 'G2', 'G2f', 'G3', 'G4', 'Gx', 'P', 'S', 'M']
@@ -63,6 +63,16 @@ class Inner(Logic):
         py4hw.Add(self, 'add1', m, b, r)
 
 
+class Inner2(Logic):
+    def __init__(self, parent, name, d, q):
+        super().__init__(parent, name)
+        self.addIn('d', d)
+        self.addOut('q', q)
+        m = self.wire('m', d.getWidth())
+        py4hw.Reg(self, 'r0', d, m)
+        py4hw.Reg(self, 'r1', m, q)
+
+
 def build(kind):
     """-> ns(sys, free, child (for G2/G3), prim (for P), spare wires for M)"""
     hw = py4hw.HWSystem()
@@ -92,6 +102,17 @@ def build(kind):
         c.prim = py4hw.Or2(hw, 'or_top', q, sync, n)
         c.free = [start, stop]
         c.edit = lambda: py4hw.Not(hw, 'extra', n, hw.wire('extra'))
+    elif kind == 'multiclk':
+        # a sub-block in its own (differently named) clock domain; the clock wire is an ordinary wire of the parent
+        d, en = hw.wire('d', 2), hw.wire('en')
+        pclk, q, n = hw.wire('pclk'), hw.wire('q', 2), hw.wire('n', 2)
+        py4hw.Buf(hw, 'pclk_buf', en, pclk)
+        c.child = Inner2(hw, 'pix', d, q)
+        c.child.clockDriver = py4hw.ClockDriver('pix_clk', base=hw.clockDriver, enable=pclk, wire=pclk)
+        c.prim = py4hw.Not(hw, 'not_top', q, n)
+        py4hw.Reg(hw, 'sysreg', n, hw.wire('q2', 2))
+        c.free = [d, en]
+        c.edit = lambda: py4hw.Not(hw, 'extra', n, hw.wire('extra', 2))
     else:
         raise ValueError(kind)
     c.sim = hw.getSimulator()
@@ -197,7 +218,7 @@ def first_diff(a, b):
     return {'line': min(len(la), len(lb)), 'canonical_lines': len(la), 'got_lines': len(lb)}
 
 
-KINDS = [('comb', 'seq'), ('seq', 'fsm'), ('fsm', 'comb')]
+KINDS = [('comb', 'seq'), ('seq', 'fsm'), ('fsm', 'comb'), ('multiclk', 'comb')]
 
 
 def shards(tier):
